@@ -139,7 +139,9 @@ int cp_sokdl_ver(const bn_t c, const bn_t s, const uint8_t *msg, size_t len,
 		bn_read_bin(v, h, RLC_MD_LEN);
 		bn_mod(v, v, n);
 
-		if (bn_cmp(v, c) == RLC_EQ) {
+		/* The response must be reduced modulo the group order as well. */
+		if (bn_cmp(v, c) == RLC_EQ && bn_sign(s) == RLC_POS &&
+				bn_cmp(s, n) == RLC_LT) {
 			result = 1;
 		}
 	}
@@ -318,6 +320,13 @@ int cp_sokor_ver(const bn_t c[2], const bn_t s[2], const uint8_t *msg,
 
 		if (bn_is_zero(z)) {
 			result = 1;
+		}
+		/* Challenges and responses must be reduced modulo the group order. */
+		for (int i = 0; i < 2; i++) {
+			if (bn_sign(c[i]) == RLC_NEG || bn_cmp(c[i], n) != RLC_LT ||
+					bn_sign(s[i]) == RLC_NEG || bn_cmp(s[i], n) != RLC_LT) {
+				result = 0;
+			}
 		}
 	}
 	RLC_CATCH_ANY {
